@@ -303,6 +303,15 @@ def pong(R):
         ok = len(pc) == 1 and match_exact(guard_atom_sets(g3, y), [{(U(pc[0]), True)}])
         R.ob('C15.pong', 'Unresponsive exactly when the timeout check fires', ok, 'Unresponsive under %s' % sorted(lits),
              func=q3, node=y.ast)
+        # nothing that can end the pass by raising comes before the ping-timeout test: a close timeout found expired in
+        # the same pass must not swallow the Unresponsive event
+        pn = [n for n in g3.live_nodes() if any(c is pc[0] for c in n.calls)] if pc else []
+        raisers = [n for (n, c_) in calls_to(R, g3, S + '._check_close_timeout')]
+        okp = bool(pn) and all(all_paths_pass(g3, [g3.entry], pn, [r_], skip_edge=nx) for r_ in raisers)
+        R.ob('C15.pong', 'the ping-timeout test is not pre-empted by the close-timeout check', okp,
+             '_check_close_timeout() (which raises _ForceDisconnect) runs before the ping-timeout test: when both are due '
+             'in one pass the session ends without the Unresponsive event', func=q3, node=(raisers[0].ast if raisers else None),
+             construct='close-timeout check before ping-timeout test')
 
 
 def close(R, RID='C15.close', rearm=True):
